@@ -246,7 +246,17 @@ func NewCalculator(
 
 	// account for large standard deviations or peaks beyond the window
 	coveredRegion := gauss.CDF(float64(repeatWindow-frequency)) - gauss.CDF(0)
+	if coveredRegion <= 0 || math.IsNaN(coveredRegion) {
+		return nil, fmt.Errorf(
+			"gaussian: a repeat window of %s with iterations every %s covers none of the curve (peak %s, standard deviation %s)",
+			repeatWindow, frequency, peak, stddev)
+	}
 	multiplier /= coveredRegion
+	if math.IsInf(multiplier, 0) || math.IsNaN(multiplier) {
+		return nil, fmt.Errorf(
+			"gaussian: a repeat window of %s covers too little of the curve (peak %s, standard deviation %s) to scale volume %g",
+			repeatWindow, peak, stddev, volume)
+	}
 
 	return &Calculator{
 		frequency:     frequency,
